@@ -224,6 +224,7 @@ prop("C13", level="exploration", bounded=True,
           "(Payload.payload2dict); _makeFiber/uncompress/dict2fiber recurse over heterogeneous nested "
           "lists and dictionaries, YAML and random are external; the union loop that uncompress relies on is proved under C04.",
      note="Exploration level. Known finding: tuple-coordinate tensors do not reload (safe_load rejects python/tuple).",
+     also=["Payload.payload2dict"],
      trusted_base=["yaml, random (external)"])
 
 prop("C14", level="exploration", bounded=True,
